@@ -36,7 +36,7 @@ PROP = {'lean_props': ['Comrak.Props.C03'],
  'assumptions': ['default options plus the extensions strikethrough, table, tasklist, footnotes (needed by the constructs); footnote definitions are '
                  'one paragraph each, footnote names letters and digits; HTML blocks of start condition 6 only']}
 
-TEXT = {'text_added': 'Also checked against an independently written rendering: one reference definition used 4..900 times (full, collapsed and shortcut form, label case variants, definition before or after the uses) with the total expansion below the cap - every use resolves.',
+TEXT = {'text_added': 'Also checked against an independently written rendering: one reference definition used 4..900 times (full, collapsed and shortcut form, label case variants, definition before or after the uses) with the total expansion below the cap - every use resolves. Every named character reference of HTML5 (2125 names, table copied from Python\'s html.entities into audit/html5_entities.tsv) is decoded in text and in a link title; fenced code whose content has a line of the other fence character or a shorter run of the same one.',
  'text': 'Proof + correspondence. Lean defines an inductive type Doc of canonical Markdown documents (paragraph, ATX and setext heading, thematic '
          'break, fenced and indented code, block quote, tight/loose bullet and ordered lists of any nesting; text with backslash escapes, '
          'named/numeric character references and multi-byte characters, code spans, emphasis, strong, GFM strikethrough, inline links with titles '
